@@ -72,16 +72,19 @@ func tryFindFirstCharClass(node *RegexNode, ccIn **CharSet) int {
 			*ccIn = cc
 		}
 		if cc.IsMergeable() {
-			cc.addChar(node.Ch)
-			cc.negate = true
-			/*if node.Ch > 0 {
-				// Add the range before the excluded char.
-				cc.addRange(0, (node.Ch - 1))
+			if cc.IsEmpty() {
+				cc.addChar(node.Ch)
+				cc.negate = true
+			} else {
+				// the class already has members: add the complement of the
+				// excluded char instead of negating what is there
+				if node.Ch > 0 {
+					cc.addRange(0, (node.Ch - 1))
+				}
+				if node.Ch < unicode.MaxRune {
+					cc.addRange(node.Ch+1, unicode.MaxRune)
+				}
 			}
-			if node.Ch < unicode.MaxRune {
-				// Add the range after the excluded char.
-				cc.addRange(node.Ch+1, unicode.MaxRune)
-			}*/
 			if node.T == NtNotone || node.M > 0 {
 				return 1
 			}
